@@ -48,7 +48,7 @@ def main():
     # int list probed with floats (equal to a member for odd probes, strictly between members for even ones)
     embeddings = [("int", lambda v: v, lambda x: x), ("float", lambda v: v * 0.1 - 0.35, lambda x: x * 0.1 - 0.35),
                   ("neg", lambda v: float(v - 20) * 1e300, lambda x: float(x - 20) * 1e300),
-                  ("int-list-float-probe", lambda v: v, lambda x: float(x) if x % 2 else x + 0.5),
+                  ("int-list-float-probe", lambda v: v, lambda x: float(x) if x % 2 else x - 0.5),
                   ("float-list-int-probe", lambda v: float(v), lambda x: x)]
     for c in cases:
         l = c["l"] if isinstance(c["l"], list) else []
